@@ -17,6 +17,11 @@ EXPLANATION = ("oracle = proleptic Gregorian calendar in integer arithmetic insi
 
 HARNESSES = [
     dict(name="date", src=["date.c"], variant="asan", deadline={"quick": 240, "thorough": 1500}),
+    # the same enumeration with the process in a non-UTC zone (POSIX TZ strings, no zone database needed): every text this
+    # check formats or feeds carries an explicit designator/offset or is an ISO date-only form (UTC by definition), so the
+    # parsed instant must not depend on the process zone (added after a seeded change that sent "+0000" through mktime())
+    dict(name="date-est5", src=["date.c"], variant="asan", env={"V_TZ": "EST5"}, deadline={"quick": 240, "thorough": 1500}),
+    dict(name="date-ist", src=["date.c"], variant="asan", env={"V_TZ": "IST-5:30"}, tiers=["thorough"], deadline={"thorough": 1500}),
 ]
 ASSUMPTIONS = [
     "TZ=UTC, LC_ALL=C (forced by the harness environment); local-time views and zone-less RFC 822 input under other zones are not decided",
